@@ -72,25 +72,25 @@ CHECKS = {
                 text="2 generated schemas x every perturbation of every field value (all case variants of ENUM members, prefixes, numeric strings "
                      "in every notation, wrong kinds) x 8 placements single and repeated + missing/extra-field documents through repair(), "
                      "octave_validate fix on/off, octave_write lenient+schema and `octave validate --fix`; structural diff before/after "
-                     "reconciled with the repair log; ENUMs with 3- and 4-way case collisions; fix off (explicit and omitted) under every profile; builtin META.STATUS repair through octave_write(lenient, schema=META) and validate(fix) over every perturbation of the builtin enum",
+                     "reconciled with the repair log; ENUMs with 3- and 4-way case collisions; fix off (explicit and omitted) under every profile; builtin META.STATUS repair through octave_write(lenient, schema=META) and validate(fix) over every perturbation of the builtin enum; 145-character ENUM member and 130-150 digit numeric strings (log text exact); normalize / changes write modes on an existing file x lenient {omitted,false,true} x dry run",
                 note="lossless text-to-number means Decimal equality; the property restricts the kind of change, not its location",
                 tech="exhaustive enumeration of value perturbations x placements; diff/log reconciliation oracle"),
     "C12": dict(level="exploration", engine=E1,
                 text="single-field schemas = 30 names x (every constraint atom + 24 REGEX patterns + 2-member chains), two-field schemas = all "
                      "ordered pairs of names, consecutive compilations in one process, through 7 grammar-returning routes; every grammar is read "
-                     "by an independent reader of llama.cpp grammar syntax (root defined, every reference defined, no rule twice, no empty alternative); REGEX pool includes several classes with literal glue and '#' inside literals/classes; raw (non-pattern) FIELDS entries, singly and in pairs, incl. values with line breaks and '::=' text; the compiler's own rule names are harvested from its output at run time and used as field names",
+                     "by an independent reader of llama.cpp grammar syntax (root defined, every reference defined, no rule twice, no empty alternative); REGEX pool includes several classes with literal glue and '#' inside literals/classes; raw (non-pattern) FIELDS entries, singly and in pairs, incl. values with line breaks and '::=' text; the compiler's own rule names are harvested from its output at run time and used as field names; every ordered conjunction of two atomic constraints (ENUM∧ENUM disjoint/overlapping, CONST∧CONST, RANGE∧RANGE ...), brace-quantifier REGEX shapes, every request history <=3 over (packaged schema, format) on one tool instance compared with a fresh tool",
                 note="llama.cpp grammar syntax as implemented by its parser (vt/oracles/gbnf.py)",
                 tech="exhaustive enumeration of schema programs; independent GBNF recogniser as oracle"),
     "C13": dict(level="exploration", engine=E1,
                 text="for every decided chain (CONST/ENUM/BOOLEAN/NUMBER/DATE/ISO8601 alone or with REQ/OPT) the compiled field rule is "
                      "interpreted by an independent GBNF derivation enumerator and ALL derivations within the bound are read by the real reader and "
-                     "judged by the field's own chain; literals include integers above 2^53, booleans, zero spellings and astral / combining code points; percentages and leading-zero literals, chains holding both ENUM and CONST",
+                     "judged by the field's own chain; literals include integers above 2^53, booleans, zero spellings and astral / combining code points; percentages and leading-zero literals, chains holding both ENUM and CONST; every derived line also through the real Validator with the compiled schema; two-field schemas over all ordered pairs of 20 look-alike CONST/ENUM chains (true vs \"True\", 5 vs \"5\", 1 vs 1.0); ENUMs with whole-number floats and members that prefix each other",
                 note="ws derived as empty; NUMBER up to k digits (adaptive budget), DATE/ISO8601 over a per-position digit sub-alphabet",
                 tech="bounded exhaustive enumeration of grammar derivations, replayed against the validator"),
     "C14": dict(level="exploration", engine=E1,
                 text="model documents (6 filter-key shapes x every pool value, duplicate keys, sections, zones, holographic, S(3,3)) x 4 modes x 4 "
                      "formats through octave_eject (one process, fixed order) and `octave eject`; leaf multisets extracted independently from "
-                     "each output are a sub-multiset of the source model's and lossy is true iff something was removed; documents with filter keys of one mode nested under the other mode's subtree and zones whose bytes a trim / NFC pass would change; Markdown's key set must equal the OCTAVE rendering's key set of the same projection; a number shown in the Markdown rendering must be a number the source has",
+                     "each output are a sub-multiset of the source model's and lossy is true iff something was removed; documents with filter keys of one mode nested under the other mode's subtree and zones whose bytes a trim / NFC pass would change; Markdown's key set must equal the OCTAVE rendering's key set of the same projection; a number shown in the Markdown rendering must be a number the source has; blank / envelope-only sources x every mode x format (no leaf may appear); Markdown heading level = nesting level for chains of 1..10 blocks, tool and CLI",
                 note="JSON/YAML cannot tell a block from an inline map; markdown compared on leaf paths only",
                 tech="exhaustive enumeration of documents x modes x formats; independent leaf extraction"),
     "C15": dict(level="exploration", engine=E1,
@@ -113,14 +113,14 @@ CHECKS = {
                      "normalize, each also dry, 4 external modifications) x base_hash {none,current,stale,future} from every reachable "
                      "state, plus literal histories <=3 in one process; (b) two writer processes with the same base_hash stepped at every "
                      "visible libc operation on the target - ALL interleavings with state merging, at most one success, file = winner's bytes; "
-                     "(c) all ready-handle orders of 2 tool tasks; failed and dry calls leave the whole directory tree untouched; every non-dry content/changes event also through `octave write` (refused vs success); an event writing canonical content that contains a carriage return; one mixed MCP-tool / file_ops writer pair in the quick tier; one writer + an external modification injected before every call up to the install step (different size; same size with file times kept): anything that lands before the temp file is synced must make the call fail",
+                     "(c) all ready-handle orders of 2 tool tasks; failed and dry calls leave the whole directory tree untouched; every non-dry content/changes event also through `octave write` (refused vs success); an event writing canonical content that contains a carriage return; one mixed MCP-tool / file_ops writer pair in the quick tier; one writer + an external modification injected before every call up to the install step (different size; same size with file times kept): anything that lands before the temp file is synced must make the call fail; wave 5: writer GROUPS of 2 or 3 processes incl. writers WITHOUT base_hash and with a stale one (install-order oracle: a CAS writer never installs after another writer of these tools has), fine-grained graphs where EVERY in-scope libc call (temp file too) is a scheduling point, automatic escalation to the fine graph when two writers name the same temp file; every call boundary x errno failing once in a CAS write: status=error implies an identical tree and a successful retry with the same base_hash",
                 note="base_hash on an absent file is UNSPECIFIED; writers share only the file system",
                 tech="explicit-state model checking: reference register model x implementation, all two-process schedules at libc call granularity"),
     "C18": dict(level="exploration", engine=E1,
                 text="base documents x every single change request {own top-level keys + 2 fresh} x {DELETE, null, 14 values} for body keys, "
                      "META.X and META{..}, all ordered request sequences <=k, multi-key requests; Absent at every AST position; oracle: frame "
                      "condition via an independent chunker (unnamed chunks byte-identical, same order), exact read-back of named keys; routes "
-                     "WriteTool and `octave write --changes`; a document with dotted / dashed / slashed keys and dotted META field names next to their own prefixes; maps inside lists whose values are all null; verbatim and dotted documents through `octave write --changes`",
+                     "WriteTool and `octave write --changes`; a document with dotted / dashed / slashed keys and dotted META field names next to their own prefixes; maps inside lists whose values are all null; verbatim and dotted documents through `octave write --changes`; keys named PATTERN / REGEX holding null / bool / number at top level, in a block and in inline maps",
                 note="dict values compared on merged pairs; requests naming a block are outside the property's quantifier",
                 tech="exhaustive enumeration of change requests and short request sequences; frame-condition oracle"),
     "C19": dict(level="exploration", engine="E5 libc interposer (vt/fsshim) + " + E1,
@@ -141,7 +141,7 @@ CHECKS = {
                 text="all token sequences <=4 (thorough 5) over a 32-symbol structural alphabet into tokenize/parse/parse_with_warnings/"
                      "parse_meta_only; sequences <=2 (thorough 3) and a pool of rich documents through 35 tool configurations; unicode category "
                      "representatives x 19 contexts; every 1-line delete/dup/swap/truncate of every packaged .oct.md; deterministic executed-line "
-                     "growth on 29 size-scaled families; bracket nesting around the documented cap; every string of <=3 (thorough 4) over 40 single characters, every character-granular prefix and suffix of the pool documents, special-case words (harvested from the sources at run time) x 13 templates x 12 values through readers and tools; unclosed-quote + escape-pair families (regex backtracking is invisible to line counts: the 60 CPU-second watchdog decides), deep brackets inside META and nested META through all four readers",
+                     "growth on 29 size-scaled families; bracket nesting around the documented cap; every string of <=3 (thorough 4) over 40 single characters, every character-granular prefix and suffix of the pool documents, special-case words (harvested from the sources at run time) x 13 templates x 12 values through readers and tools; unclosed-quote + escape-pair families (regex backtracking is invisible to line counts: the 60 CPU-second watchdog decides), deep brackets inside META and nested META through all four readers; indentation nesting (blocks, sections, META blocks) to depth 5000; REGEX repetition counts and YAML frontmatter scalars of every resolvable kind (non-existent dates, tags, anchors) through every tool configuration",
                 note="growth is decided on executed-line counts (sys.monitoring), not wall time; finite alphabets",
                 tech="exhaustive enumeration of token sequences and single-edit mutations; outcome-class oracle (Document | LexerError | ParserError)"),
 }
